@@ -109,7 +109,7 @@ func TestC03(t *testing.T) {
 	}
 	rec.Rule(fmt.Sprintf("exhaustive over the bounded grammar: key targets = levels over {a,b,c,+} of depth 1..%d, exact or '#/', plus '#/'; requests = levels over {a,b,c,+} of depth 1..%d, plus a trailing '#' level against '#/' targets; "+
 		"x licence versions 1,2,3 (keys minted through keygen.CreateKey and, identically, built raw and encrypted with the licence cipher); plus permission masks (all 256 thorough / 24 quick) x 6 operations x expiry {none,-1d,+1d} and foreign contract / signature / master id / garbage keys on a covering pair set; "+
-		"each case = one Service.Authorize call compared with the reference predicate; non-trivial = every case (each is a distinct (licence,key,channel,operation) tuple); regions the statement leaves open (trailing '#' in a request against an exact target) are not generated", td, rd))
+		"each case = one Service.Authorize call compared with the reference predicate; plus, for every permission mask, real SUBSCRIBE / PUBLISH / emitter/history/ / emitter/presence/ requests (accepted iff the mask has the permission the operation needs); non-trivial = every case (each is a distinct (licence,key,channel,operation) tuple); a request ending in '#' against an exact target is asserted only where counting and not counting the '#' as a level give the same answer", td, rd))
 	rec.Exhaustive(true)
 	targets := []c03Target{{nil, true}}
 	for _, l := range c03Enum(td) {
@@ -178,9 +178,16 @@ func TestC03(t *testing.T) {
 			for _, rq := range reqs {
 				check(key, desc, t, rq, (ti+len(rq))%2, covers(t, rq), "")
 			}
-			if t.hash {
-				for _, rq := range hashReqs {
+			for _, rq := range hashReqs {
+				if t.hash {
 					check(key, desc, t, rq, 0, covers(t, rq), "")
+					continue
+				}
+				// exact target, request ending in '#': the statement does not say whether the '#' counts as a
+				// level; assert only where both readings agree
+				a, bb := covers(t, rq), covers(t, rq[:len(rq)-1])
+				if a == bb {
+					check(key, desc, t, rq, 0, a, "")
 				}
 			}
 			rec.Inc("keys_minted")
@@ -255,6 +262,81 @@ func TestC03(t *testing.T) {
 			check(ok2, "key-of-another-licence", t0, []string{"a", "b"}, 0, false, "other-licence")
 			ob.Close()
 		}
+		c03EntryPoints(rec, b, lic, &caseNo)
 		b.Close()
+	}
+}
+
+// c03EntryPoints: each operation needs its own permission at the real entry points (read to
+// subscribe, write to publish, load for history, presence for presence), for every permission mask.
+func c03EntryPoints(rec *vk.Rec, b *Broker, lic int, caseNo *int) {
+	step := 1
+	if vk.Tier() != "thorough" && lic != 3 {
+		step = 5
+	}
+	cl := b.Attach("ep", nil)
+	if rc, err := cl.Connect("ep", "", nil); err != nil || rc != 0 {
+		rec.Inconclusive("entry points: connect")
+		return
+	}
+	defer cl.Abort()
+	for m := 0; m < 128; m += step {
+		*caseNo++
+		if !vk.Mine(*caseNo) {
+			continue
+		}
+		mask := uint8(m) << 1
+		key := b.RawKey(func(k security.Key) { k.SetPermissions(mask); k.SetTarget("a/#/") })
+		ext := mask&security.AllowExtend != 0
+		has := func(bit uint8) bool { return mask&bit != 0 }
+		fail := func(op string, got, want bool) {
+			dir := "refused-though-permitted"
+			if got {
+				dir = "accepted-without-permission"
+			}
+			rec.Violation(*caseNo, "entry-point/"+op+"/"+dir, fmt.Sprintf("licence v%d key mask %q (%#02x) target a/#/: %s on a/b/ accepted=%v, expected %v", lic, permString(mask), mask, op, got, want),
+				map[string]interface{}{"licence": lic, "mask": permString(mask), "operation": op, "accepted": got, "expected": want})
+		}
+		// subscribe
+		rc, _, err := cl.Subscribe(key + "/a/b/")
+		if err != nil {
+			rec.Inconclusive("entry points: " + err.Error())
+			return
+		}
+		if got, want := rc != 0x80, has(security.AllowRead) && !ext; got != want {
+			fail("subscribe", got, want)
+		} else if got {
+			cl.Unsubscribe(key + "/a/b/")
+		}
+		cl.Take()
+		// publish
+		cl.Publish(key+"/a/b/", []byte("x"), false)
+		errs := cl.TakeErrors()
+		if got, want := len(errs) == 0, has(security.AllowWrite) && !ext; got != want {
+			fail("publish", got, want)
+		}
+		cl.Take()
+		// history
+		rep, err := cl.Request("history", map[string]interface{}{"key": key, "channel": key + "/a/b/"})
+		if err != nil {
+			rec.Inconclusive("entry points: " + err.Error())
+			return
+		}
+		_, isErr := rep.Fields["status"]
+		if got, want := !isErr, has(security.AllowLoad); got != want {
+			fail("history", got, want)
+		}
+		// presence
+		rep, err = cl.Request("presence", map[string]interface{}{"key": key, "channel": "a/b/", "status": true})
+		if err != nil {
+			rec.Inconclusive("entry points: " + err.Error())
+			return
+		}
+		if got, want := rep.Status == 200, has(security.AllowPresence) && !ext; got != want {
+			fail("presence", got, want)
+		}
+		cl.Take()
+		rec.Case(vk.Hash(lic, "entry", m), true)
+		rec.Add("entry_point_requests", 4)
 	}
 }
